@@ -27,7 +27,7 @@ func init() {
 			"P4 (stream matchers) NO/ERR at k stays NO/ERR for all longer prefixes; P5 (stream matchers) YES at k implies MORE or YES at every shorter prefix; P6 a stream evaluated again later (fresh connection, after other streams of the target) gets the same verdict. " +
 			"non-trivial = the stream's verdict sequence contains at least one MORE or YES; distinct = hash(target, stream). " +
 			"route level: a route list of a proxy_protocol route (non-terminal) followed by 3-8 shipped stream matchers in a shuffled order, each ending in a recording sink; a stream (optional PROXY v1/v2 header + well-formed " +
-			"message + trailing bytes) is delivered whole and in 2-4 fragments (separate prefetch rounds): the same route must consume it and its handler must read the same bytes",
+			"message + trailing bytes) is delivered whole and in 2-4 fragments (separate prefetch rounds): the same route must consume it and its handler must read the same bytes. route level also: HTTP requests of 6.2-8.1 KiB (long header) whole and in equal segments of 536..4000 bytes.",
 		Assumptions: []string{
 			"time-dependent filters are pinned (clock via the wrap-time placeholder, OpenVPN seeds without timestamps)",
 			"datagram matchers (wireguard, quic, dns/UDP, openvpn/UDP) are held to P1-P3 only",
